@@ -181,4 +181,108 @@ theorem byte_queue_locked :
     Gen.RxOrder.byteQueueLocked = [("append", true), ("pop", true), ("pop_byte", true), ("clear", true)]
     ∧ Gen.RxOrder.popTakesExactlySize = true := by decide
 
+/-- **Header decode is injective onto canonical bytes.**  For EVERY ten bytes: if the generated `HsmsHeader.decode` returns a
+header, the generated `encode` of that header gives exactly those ten bytes back (and the header is in range). -/
+theorem header_decode_canonical (bs : Bytes) (hl : bs.length = 10) (hb : AllBytes bs) (h : HsmsHeader) (hd : HsmsHeader.decode bs = .ok h) :
+    h.encode = .ok bs := by
+  match bs, hl with
+  | [a0, a1, a2, a3, a4, a5, a6, a7, a8, a9], _ =>
+    have h0 : a0 < 256 := hb a0 (by simp)
+    have h1 : a1 < 256 := hb a1 (by simp)
+    have h2 : a2 < 256 := hb a2 (by simp)
+    have h3 : a3 < 256 := hb a3 (by simp)
+    have h4 : a4 < 256 := hb a4 (by simp)
+    have h5 : a5 < 256 := hb a5 (by simp)
+    have h6 : a6 < 256 := hb a6 (by simp)
+    have h7 : a7 < 256 := hb a7 (by simp)
+    have h8 : a8 < 256 := hb a8 (by simp)
+    have h9 : a9 < 256 := hb a9 (by simp)
+    have u : Py.unpackBE [2, 1, 1, 1, 1, 4] [a0, a1, a2, a3, a4, a5, a6, a7, a8, a9] =
+        .ok [((ofBe [a0, a1] : Nat) : Int), ((ofBe [a2] : Nat) : Int), ((ofBe [a3] : Nat) : Int), ((ofBe [a4] : Nat) : Int),
+             ((ofBe [a5] : Nat) : Int), ((ofBe [a6, a7, a8, a9] : Nat) : Int)] := by
+      simp [Py.unpackBE, Py.unpackFields]
+    rw [decode_fields _ _ _ _ _ _ _ u] at hd
+    split at hd
+    · injection hd with hd
+      subst hd
+      have e0 : ofBe [a0, a1] = a0 * 256 + a1 := by simp [ofBe]
+      have e1 : ofBe [a2] = a2 := by simp [ofBe]
+      have e2 : ofBe [a3] = a3 := by simp [ofBe]
+      have e3 : ofBe [a4] = a4 := by simp [ofBe]
+      have e5 : ofBe [a5] = a5 := by simp [ofBe]
+      have e4 : ofBe [a6, a7, a8, a9] = a6 * 16777216 + (a7 * 65536 + (a8 * 256 + a9)) := by simp [ofBe]
+      rw [encode_nat _ _ _ _ _ _ _ (by rw [e4]; omega) (by omega) (by omega) (by rw [e2]; omega) (by omega) (by omega)]
+      congr 1
+      simp only [specBytes]
+      have r1 : (ofBe [a2] % 128 + if decide (ofBe [a2] / 128 % 2 = 1) = true then 128 else 0) = ofBe [a2] := by
+        rw [e1]; split <;> rename_i hc <;> simp at hc <;> omega
+      rw [r1]
+      have b0 := be_ofBe [a0, a1] (by intro x hx; simp at hx; rcases hx with h | h <;> omega)
+      have b1 := be_ofBe [a2] (by intro x hx; simp at hx; omega)
+      have b2 := be_ofBe [a3] (by intro x hx; simp at hx; omega)
+      have b3 := be_ofBe [a4] (by intro x hx; simp at hx; omega)
+      have b5 := be_ofBe [a5] (by intro x hx; simp at hx; omega)
+      have b4 := be_ofBe [a6, a7, a8, a9] (by intro x hx; simp at hx; rcases hx with h | h | h | h <;> omega)
+      simp only [List.length_cons, List.length_nil] at b0 b1 b2 b3 b4 b5
+      rw [b0, b1, b2, b3, b4, b5]
+      rfl
+    · cases hd
+
+/-- `HsmsBlock.decode` with the generated widths (4-byte length, 10-byte header) substituted; closed by `rfl` -/
+theorem decode_eq_lit (raw : Bytes) : Block.decode raw =
+    (if raw.length < 4 then .error .structError else
+     if ofBe (raw.take 4) < 10 then .error .structError else
+     if raw.length ≠ 4 + 10 + (ofBe (raw.take 4) - 10) then .error .structError else
+     match HsmsHeader.decode ((raw.drop 4).take 10) with
+     | .error e => .error e
+     | .ok h => .ok ⟨h, (raw.drop (4 + 10)).take (ofBe (raw.take 4) - 10)⟩) := rfl
+
+/-- **The HSMS decoder accepts only canonical frames.**  For EVERY byte string: if `HsmsBlock.decode` returns a block, then
+`HsmsBlock.encode` of that block is exactly that byte string — no frame with a non-canonical length field or header bytes is
+ever accepted as a block (converse of `frame_roundtrip`). -/
+theorem frame_decode_canonical (raw : Bytes) (araw : AllBytes raw) (b : Block) (hd : Block.decode raw = .ok b) :
+    b.encode = .ok raw := by
+  rw [decode_eq_lit] at hd
+  split at hd
+  · cases hd
+  rename_i c1
+  split at hd
+  · cases hd
+  rename_i c2
+  split at hd
+  · cases hd
+  rename_i c3
+  have a4 : AllBytes (raw.take 4) := fun x hx => araw x (List.mem_of_mem_take hx)
+  have ahb : AllBytes ((raw.drop 4).take 10) := fun x hx => araw x (List.mem_of_mem_drop (List.mem_of_mem_take hx))
+  have l4 : (raw.take 4).length = 4 := by simp; omega
+  have lhb : ((raw.drop 4).take 10).length = 10 := by simp; omega
+  have hlt := ofBe_lt (raw.take 4) a4
+  rw [l4] at hlt
+  split at hd
+  · cases hd
+  · rename_i h hh
+    injection hd with hd
+    subst hd
+    have henc := header_decode_canonical _ lhb ahb h hh
+    have ldata : ((raw.drop (4 + 10)).take (ofBe (raw.take 4) - 10)).length = ofBe (raw.take 4) - 10 := by simp; omega
+    simp only [Block.encode, henc, BlockFmt.hsmsLengthWidth, HsmsHeader.length, ldata]
+    have e1 : 10 + (ofBe (raw.take 4) - 10) = ofBe (raw.take 4) := by omega
+    rw [e1, if_pos hlt]
+    have b4 := be_ofBe (raw.take 4) a4
+    rw [l4] at b4
+    rw [b4, lhb]
+    have t10 : ((raw.drop 4).take 10).take 10 = (raw.drop 4).take 10 := by rw [List.take_take]; simp
+    rw [t10]
+    have tall : (raw.drop (4 + 10)).take (ofBe (raw.take 4) - 10) = raw.drop (4 + 10) := by
+      apply List.take_of_length_le; simp; omega
+    rw [tall]
+    have : raw.drop (4 + 10) = (raw.drop 4).drop 10 := by rw [List.drop_drop]
+    rw [this]
+    simp only [List.replicate, Nat.sub_self, List.append_nil, Except.ok.injEq]
+    have e14 : raw.drop 14 = (raw.drop 4).drop 10 := by rw [List.drop_drop]
+    simp only [List.append_assoc]
+    first
+      | rw [List.take_append_drop, List.take_append_drop]
+      | (rw [e14, List.take_append_drop, List.take_append_drop])
+
 end SecsModel.Props.C04
